@@ -165,7 +165,7 @@ def gen_program(rng, force=None):
         cond = f"{ns[0]} + {ns[1]} < 1000"
         if rng.random() < 0.6:
             # a real constraint so that iteration counts vary
-            body.append(f"tight = Range(0, 1)")
+            head.append("tight = Range(0, 1)")
             cond = f"tight < 0.6"
             ns = ns + ["tight"]
         body.append(f"require F.obs('rq{nreq}', {', '.join(ns)}) and {cond}")
@@ -220,22 +220,33 @@ def gen_program(rng, force=None):
 
 def plan(tier, seed):
     nshards = 16 if tier == "quick" else 64
-    per = 2 if tier == "quick" else 7
     ninst = 6 if tier == "quick" else 24
-    return [
-        {"shard": i, "programs": per, "instances": ninst, "timeout": 900 if tier == "quick" else 3000}
-        for i in range(nshards)
-    ]
+    out = []
+    for i in range(nshards):
+        per = (2 if i % 2 == 0 else 1) if tier == "quick" else 6
+        out.append({"shard": i, "programs": per, "instances": ninst, "timeout": 1500 if tier == "quick" else 6000})
+    return out
 
 
-def _instance_params(rng, j, ninst):
-    ks = (0, 5, 50)
+HEAVY = {"visible", "cansee", "mesh_region", "mesh_shape"}
+
+
+def _instance_params(rng, j, ninst, heavy=False):
+    """Instances 0..n/2-1 run the code as is (0 = unperturbed baseline); the second half runs with the
+    requirement-dependency segment of Scenario.dependencies put into a canonical order (diagnostic mode,
+    first of them unperturbed), so that mechanisms other than that set order are not masked by it."""
+    half = ninst // 2
+    ks = (0, 2, 5) if heavy else (0, 5, 50)
+    jj = j % half
+    clean = jj == 0
     return {
-        "hashseed": str(rng.randrange(1, 2**31)) if j else "0",
-        "junk": 0 if j == 0 else rng.randrange(1, 4000),
-        "clock_seed": None if j == 0 else rng.randrange(1 << 30),
-        "k": ks[j % 3] if j < ninst - 1 else 5,
-        "import_extra": [] if j % 2 == 0 else ["decimal", "fractions", "xml.dom.minidom"],
+        "hashseed": "0" if clean else str(rng.randrange(1, 2**31)),
+        "junk": 0 if clean else rng.randrange(1, 4000),
+        "clock_seed": None if clean else rng.randrange(1 << 30),
+        "k": ks[jj % 3],
+        "import_extra": [] if jj % 2 == 0 else ["decimal", "fractions", "xml.dom.minidom"],
+        "env_pad": 0 if jj % 2 == 0 else rng.randrange(1, 3000),
+        "normalize_deps": j >= half,
     }
 
 
@@ -250,6 +261,7 @@ def run_instance(prog, seed, inst, timeout=300):
         "batch": 3,
         "steps": prog["steps"],
         "import_extra": inst["import_extra"],
+        "normalize_deps": inst.get("normalize_deps", False),
     }
     env = dict(os.environ)
     env["PYTHONHASHSEED"] = inst["hashseed"]
@@ -286,49 +298,56 @@ def _sampled_ok(dump):
     return True
 
 
+def _desc(inst):
+    return (
+        f"hashseed={inst['hashseed']}, junk={inst['junk']}, clock={inst['clock_seed']}, k={inst['k']}, "
+        f"normalized={inst.get('normalize_deps', False)}"
+    )
+
+
 def judge_program(prog, seed, insts, outs):
-    """outs: list of worker outputs (dict) aligned with insts. Returns (violations, info)."""
+    """outs: worker outputs aligned with insts.  Dumps must be identical within the group of instances
+    running the code as is, and within the group running with canonical dependency order."""
     from rt import canon
 
     viols = []
-    ref = outs[0]
     texts = [json.dumps(o["dump"], sort_keys=True) for o in outs]
     info = {
-        "dep_orders": len({json.dumps(o["meta"].get("deps")) for o in outs}),
+        "dep_orders": len({json.dumps(o["meta"].get("deps_raw")) for o in outs}),
         "all_sampled": all(_sampled_ok(o["dump"]) for o in outs),
-        "any_sim": any("result" in (o["dump"].get("B") or {}).get("sim", {}) and o["dump"]["B"]["sim"]["result"] for o in outs),
+        "any_sim": any(((o["dump"].get("B") or {}).get("sim") or {}).get("result") for o in outs),
+        "normalized_nontrivial": any(o["meta"].get("normalized_segment", 0) >= 2 for o in outs),
     }
-    if len(set(texts)) == 1:
-        return viols, info
-    # attribute: is the dump a function of the dependency order?
-    by_order = {}
-    for o, t in zip(outs, texts):
-        by_order.setdefault(json.dumps(o["meta"].get("deps")), set()).add(t)
-    function_of_order = all(len(v) == 1 for v in by_order.values()) and len(by_order) > 1
-    for j in range(1, len(outs)):
-        if texts[j] == texts[0]:
+    for normalized in (False, True):
+        idx = [j for j, i in enumerate(insts) if bool(i.get("normalize_deps")) == normalized]
+        if len(idx) < 2:
             continue
-        d = canon.first_diff(ref["dump"], outs[j]["dump"])
-        phaseA_equal = json.dumps(ref["dump"].get("A"), sort_keys=True) == json.dumps(outs[j]["dump"].get("A"), sort_keys=True)
-        key = None
-        if function_of_order and ref["meta"].get("deps") != outs[j]["meta"].get("deps"):
-            # narrow: only the requirement-dependency segment of Scenario.dependencies is permuted
-            a, b = ref["meta"]["deps"], outs[j]["meta"]["deps"]
-            if sorted(a) == sorted(b):
+        r = idx[0]
+        group = [texts[j] for j in idx]
+        if len(set(group)) == 1:
+            continue
+        # is the dump a function of the dependency order within this group?
+        by_order = {}
+        for j in idx:
+            by_order.setdefault(json.dumps(outs[j]["meta"].get("deps")), set()).add(texts[j])
+        function_of_order = len(by_order) > 1 and all(len(v) == 1 for v in by_order.values())
+        for j in idx[1:]:
+            if texts[j] == texts[r]:
+                continue
+            d = canon.first_diff(outs[r]["dump"], outs[j]["dump"])
+            eqA = json.dumps(outs[r]["dump"].get("A"), sort_keys=True) == json.dumps(outs[j]["dump"].get("A"), sort_keys=True)
+            a, b = outs[r]["meta"].get("deps"), outs[j]["meta"].get("deps")
+            key = None
+            if not normalized and function_of_order and a != b and sorted(a) == sorted(b):
                 key = "dependencies.requirement-deps-set-order"
-        what = (
-            f"instance {j} (hashseed={insts[j]['hashseed']}, junk={insts[j]['junk']}, clock={insts[j]['clock_seed']}, "
-            f"k={insts[j]['k']}) differs from instance 0 at {d}; dependency order {outs[j]['meta'].get('deps')} vs "
-            f"{ref['meta'].get('deps')}; phase-A(no history) equal={phaseA_equal}; features={prog['features']}"
-        )
-        viols.append(
-            {
-                "key": key,
-                "what": what,
-                "witness": {"program": prog, "seed": seed, "instances": [insts[0], insts[j]]},
-            }
-        )
-        break  # one violation per program is enough (the rest is the same story)
+            elif eqA and not normalized and a == b:
+                key = None
+            what = (
+                f"instance {j} ({_desc(insts[j])}) differs from instance {r} ({_desc(insts[r])}) at {d}; "
+                f"Scenario.dependencies order {b} vs {a}; no-history phase equal={eqA}; features={prog['features']}"
+            )
+            viols.append({"key": key, "what": what, "witness": {"program": prog, "seed": seed, "instances": [insts[r], insts[j]]}})
+            break  # one violation per group and program
     return viols, info
 
 
@@ -349,7 +368,8 @@ def run_shard(spec):
             force = [RISKY[(spec["shard"] // 4) % len(RISKY)]]
         prog = gen_program(rng, force)
         seed = rng.randrange(1 << 20)
-        insts = [_instance_params(rng, j, spec["instances"]) for j in range(spec["instances"])]
+        heavy = bool(HEAVY & set(prog["features"]))
+        insts = [_instance_params(rng, j, spec["instances"], heavy) for j in range(spec["instances"])]
         outs = []
         failed = None
         for j, inst in enumerate(insts):
@@ -389,6 +409,8 @@ def run_shard(spec):
             bump("programs_with_simulation")
         if info["dep_orders"] > 1:
             bump("programs_with_differing_dependency_order")
+        if info["normalized_nontrivial"]:
+            bump("programs_with_normalized_group_nontrivial")
         its = {json.dumps([s.get("iterations") for s in o["dump"]["B"]["scenes"]]) for o in outs if o["dump"].get("B")}
         if any(any((s.get("iterations") or 0) > 1 for s in o["dump"]["B"]["scenes"]) for o in outs if o["dump"].get("B")):
             bump("programs_with_rejections")
